@@ -388,6 +388,18 @@ fn run<H: HashChain>(op: &str, a: &Args) -> Option<String> {
         }
         "zeroize" => zeroize_probe::run::<H>(a.s("type")?)?,
         #[cfg(feature = "fast_verify")]
+        "fveval" => {
+            let t = a.num("type")? as u32;
+            let d = a.bytes("digest")?;
+            if d.len() != n {
+                return None;
+            }
+            match vh::fast_verify_eval::<H>(t, &d) {
+                Some(v) => format!("ok {}", v),
+                None => "none".to_string(),
+            }
+        }
+        #[cfg(feature = "fast_verify")]
         "signmut" => {
             let sk = a.bytes("sk")?;
             let mut msg = a.bytes("msg")?;
